@@ -11,7 +11,7 @@ git -C $WT apply $D/patch.diff || { echo "NOT-CONFIRMED $ID/$N: patch does not a
 fails=$(grep -c "^test result: FAILED" $D/confirm_suite.log); passed=$(grep "^test result: ok" $D/confirm_suite.log | awk '{s+=$4} END{print s}')
 if [ $rc -ne 0 ] || [ "$fails" != "0" ]; then echo "NOT-CONFIRMED $ID/$N: suite fails with the change (rc=$rc)"; git -C $WT checkout -- .; exit 1; fi
 rundemo() {
-  if [ -d $D/demo ]; then ( cd $D/demo && timeout 1200 cargo run --offline -q > $D/confirm_demo_$1.log 2>&1 ); echo $?;
+  if [ -d $D/demo ]; then ( cd $D/demo && if grep -q "\[\[bin\]\]\|src/main.rs" Cargo.toml || [ -f src/main.rs ]; then timeout 1800 cargo run --offline -q --release > $D/confirm_demo_$1.log 2>&1; else timeout 1800 cargo test --offline -q > $D/confirm_demo_$1.log 2>&1; fi ); echo $?;
   elif [ -f $D/demo.sh ]; then ( cd $D && timeout 1200 sh ./demo.sh > $D/confirm_demo_$1.log 2>&1 ); echo $?;
   else echo 99; fi
 }
